@@ -35,6 +35,9 @@ class Ctx:
                         3: cut(np.array([[3.0, 0.0], [0.0, 2.0], [6.0, 1.0], [1.0, 1.0]]))}
         self.lifetimes = {
             "FixedLifetime": (flodym.FixedLifetime, {1: dict(mean=2.5), 2: dict(mean=lab([4.0, 6.0])), 3: dict(mean=5.5)}),
+            # one label whose cohorts vanish within their first interval (zero diagonal of the survival table: its stock-driven
+            # result is undefined) next to an ordinary one
+            "FixedLifetime0": (flodym.FixedLifetime, {1: dict(mean=2.5), 2: dict(mean=lab([0.3, 6.0])), 3: dict(mean=lab([6.0, 0.3]))}),
             "StepLifetime": (StepLifetime, {1: dict(period=2.0), 2: dict(period=lab([2.5, 4.0])), 3: dict(period=3.0)}),
             # parameter set 2 differs from set 1 in the FIRST parameter only, set 3 in both
             "NormalLifetime": (flodym.NormalLifetime, {1: dict(mean=4.0, std=1.5), 2: dict(mean=lab([7.0, 5.0]), std=1.5),
@@ -57,7 +60,8 @@ class Ctx:
 
 LIFETIME_NAMES = ["FixedLifetime", "StepLifetime", "NormalLifetime", "FoldedNormalLifetime", "LogNormalLifetime", "WeibullLifetime"]
 CLASSES = [("InflowDrivenDSM", None), ("StockDrivenDSM", "manual"), ("StockDrivenDSM", "lapack")]
-COMBOS = [(lt, c, dv) for lt in LIFETIME_NAMES for c in CLASSES for dv in ("r2", "t", "r1")]
+COMBOS = [(lt, c, dv) for lt in LIFETIME_NAMES for c in CLASSES for dv in ("r2", "t", "r1")] + \
+         [("FixedLifetime0", c, dv) for c in CLASSES[:2] for dv in ("r2", "r1")]       # (lapack may refuse a singular label)
 
 
 def lm_options(C):
@@ -85,7 +89,10 @@ def results_of(st):
 
 def same(a, b):
     a, b = np.asarray(a, dtype=float), np.asarray(b, dtype=float)
-    return a.shape == b.shape and bool(np.all((np.abs(a - b) <= 1e-9 * np.maximum(1.0, np.abs(b))) | (np.isnan(a) & np.isnan(b))))
+    # (where the freshly built reference itself is undefined - a label whose survival diagonal is zero under a stock-driven
+    # model gives x/0 - nothing is demanded)
+    with np.errstate(all="ignore"):
+        return a.shape == b.shape and bool(np.all((np.abs(a - b) <= 1e-9 * np.maximum(1.0, np.abs(b))) | ~np.isfinite(b)))
 
 
 def build_system(C, lt, cls_name, solver):
@@ -145,7 +152,19 @@ def run_history(vec):
                 if op == "set_driver":
                     (st.inflow if cls_name == "InflowDrivenDSM" else st.stock).values[...] = driver_values(cls_name, arg)
                 elif op == "set_prms":
-                    st.lifetime_model.set_prms(**prms[arg])
+                    if (n + idx) % 2:
+                        # handed over as full-shape float64 buffers which the caller re-uses for something else afterwards:
+                        # the stock's inputs are what was PASSED, not what the buffers hold later
+                        def as_full(v):
+                            if isinstance(v, FlodymArray):
+                                return np.array(v.cast_to(DIMS).values, dtype=np.float64, copy=True)
+                            return np.full(DIMS.shape, float(v), dtype=np.float64)
+                        bufs = {k: as_full(v) for k, v in prms[arg].items()}
+                        st.lifetime_model.set_prms(**bufs)
+                        for b in bufs.values():
+                            b[...] = b * 3.0 + 11.0
+                    else:
+                        st.lifetime_model.set_prms(**prms[arg])
                 elif op == "read_sf":
                     sf = np.array(st.lifetime_model.sf)
                     pdf = np.array(st.lifetime_model.pdf)       # reading the outflow table too (both are cached lazily)
